@@ -182,6 +182,10 @@ def prepare(model: str = "real") -> None:
         time.process_time_ns,
     ):
         REGISTERED_CONTRACTS.pop(f, None)
+    # -- randomness: only tempfile names use it in the code under test; keep it concrete
+    for f in list(REGISTERED_CONTRACTS.keys()):
+        if "Random." in str(getattr(f, "__qualname__", "")):
+            REGISTERED_CONTRACTS.pop(f, None)
 
     # -- datetime: timestamps are concrete in every harness; CrossHair's pure-python datetime breaks C-level mixes
     import datetime as _dtm
